@@ -149,11 +149,18 @@ impl Uplinks {
             write_queue,
             ..
         } = self;
-        if let Some((mut writer, mut buffer)) = writer.take() {
-            let action = write_to_buffer(event, &mut buffer)?;
+        if let Some((mut sender, mut buffer)) = writer.take() {
+            let action = match write_to_buffer(event, &mut buffer) {
+                Ok(action) => action,
+                Err(e) => {
+                    // The event was rejected so nothing will be written: the sender must be retained.
+                    *writer = Some((sender, buffer));
+                    return Err(e);
+                }
+            };
             let lane_name = registry.name_for(lane_id).expect(UNREGISTERED_LANE);
-            writer.update_lane(lane_name);
-            Ok(Some(WriteTask::new(writer, buffer, action)))
+            sender.update_lane(lane_name);
+            Ok(Some(WriteTask::new(sender, buffer, action)))
         } else {
             match event {
                 UplinkResponse::Value(body) => {
